@@ -24,7 +24,7 @@ TRUSTED_BASE = [
     'tools/py2v.py (Python-ast to Gallina translator for the kernels; fail-closed)',
     'harness/*.py (drives the real library, encodes observations as Coq literals)',
     'CPython int bit operations modelled as Coq Z (two\'s complement land/lor/lnot/shiftr)',
-    'bitsets 0.8.4, heapq, sorted, itertools: re-stated by hand in the model, validated by correspondence only',
+    'bitsets 0.8.4: line-by-line Gallina re-statement (Model/Bitsets.v) proved equal to the definitions the theorems use (Proofs/Bitsets.v); the re-statement itself, heapq as a priority queue, sorted, itertools are trusted and validated by correspondence',
 ]
 
 
